@@ -77,8 +77,7 @@ def wf_space(s):
 
 
 def dom_within(s, N):
-    k = z3.Const(fresh_name("k"), Name)
-    return z3.ForAll([k], z3.Implies(s[k] >= 0, isvar(N, k)))
+    return z3.ForAll([_KB], z3.Implies(s[_KB] >= 0, isvar(N, _KB)))
 
 
 # --- three-valued evaluation of a function on a space (opaque; defined by two axioms)
